@@ -32,7 +32,7 @@ ASSUMPTIONS = [
     "out-of-region READS inside a parent array are invisible to the audit; only the exactly-sized ASan leg reveals them",
     "ASan reports count only when a frame of the JIT module (module_<hash> / internal::kernel) is on the stack",
 ]
-REQUIRE = {"kernel_calls_audited": 100, "cells_outside_region_checked": 1000, "cells_in_region_compared": 5000, "asan_calls_clean": 10}
+REQUIRE = {"repeat_calls_same_array_objects": 50, "kernel_calls_audited": 100, "cells_outside_region_checked": 1000, "cells_in_region_compared": 5000, "asan_calls_clean": 10}
 SHARD_TIMEOUT = {"quick": 900, "thorough": 2400}
 
 LAYOUTS = ("contig", "embedded", "strided")
@@ -109,6 +109,7 @@ def run_shard(sh, rec):
                         A = audit.Arrays(rng, real_t, layout)
                         meta = {"variant": vname, "dtype": dts, "shape": shape, "layout": layout, "threads": nt, "mode": mode}
                         print("RUN", meta, flush=True)
+                        ctx = None
                         try:
                             if v.needs_grid:
                                 Kc, ctx = v.build_for(shape, real_t, nt, A, rng)
@@ -121,6 +122,27 @@ def run_shard(sh, rec):
                             continue
                         done = audit.audit(vname, case, A, rec, rng, real_t, meta)
                         rec.count("kernel_calls_audited")
+                        if done and mode == "audit" and layout == "contig":
+                            # second and third call of the same generated kernel with the SAME array objects, refilled in place
+                            # (inputs new values, outputs and scratch new garbage): per-object caches / one-time resets show here
+                            for rep in (2, 3):
+                                for k, role in case.roles.items():
+                                    a = case.kw[k]
+                                    if role == "out":
+                                        a[...] = A._sentinels(a.shape, a.dtype) if a.dtype.kind == "c" else util.sentinel_like(rng, a.shape, a.dtype)
+                                    elif role == "scratch":
+                                        a[...] = (rng.standard_normal(a.shape) * 50).astype(a.dtype)
+                                    elif a.dtype.kind != "c":
+                                        a[...] = (a * real_t(-0.75) + real_t(0.1)).astype(a.dtype) if role == "in" and k in ("char_field", "level_set_field") else (rng.standard_normal(a.shape)).astype(a.dtype) if k not in ("char_field", "level_set_field") else a
+                                    else:
+                                        a[...] = (rng.standard_normal(a.shape) + 1j * rng.standard_normal(a.shape)).astype(a.dtype)
+                                if "buffers" in (ctx or {}):
+                                    for b in ctx["buffers"]:
+                                        b[...] = (rng.standard_normal(b.shape) * 50).astype(b.dtype)
+                                if "midstep" in (ctx or {}):
+                                    ctx["midstep"][...] = (rng.standard_normal(ctx["midstep"].shape) * 50).astype(real_t)
+                                audit.audit(vname, case, A, rec, rng, real_t, dict(meta, call=rep))
+                                rec.count("repeat_calls_same_array_objects")
                         if mode == "asan" and done:
                             rec.count("asan_calls_clean")
                         nontrivial = True
